@@ -241,6 +241,10 @@ func (t *ImmutableTree) Iterate(fn func(key []byte, value []byte) bool) (bool, e
 			return true, nil
 		}
 	}
+	if err := itr.Error(); err != nil {
+		// the iteration stopped early because of a storage error
+		return false, err
+	}
 	return false, nil
 }
 
